@@ -15,6 +15,8 @@
 (*                                 ; Sub1 (remoteMu taken, interest recorded)            *)
 (*                                 ; Sub2 (AddTagsCtx under pool.mu, rollback when the   *)
 (*                                         stream vanished, remoteMu released)           *)
+(*                                 ; Sub3 (second CheckMember, no lock held; a non-member*)
+(*                                         is evicted again under remoteMu)              *)
 (*   handleUnsubscribe = Unsub1 (interest withdrawn under remoteMu) ; Unsub2 (RemoveTagsCtx)*)
 (*   stream close      = RemoveStream (pool.removeStream under pool.mu)                  *)
 (*                     ; OnStreamClose (close hook, takes remoteMu)                      *)
@@ -44,6 +46,9 @@ CONSTANTS
     Burst,          \* Config.PublishBurst (refill rate configured negligible); -1 = limiter not modelled (never exhausted)
     BroadcastDedup, \* TRUE: pool.Broadcast gives a stream matching several tags one copy (as-is)
     FIX_PruneEmpty, \* TRUE: handleSubscribe drops the records it created when nothing was accepted (repaired)
+    FIX_Recheck,    \* TRUE: handleSubscribe asks the membership checker once more after it released remoteMu and
+                    \* withdraws what it just registered when the account is no longer a member (repaired);
+                    \* FALSE: as it was - the only check precedes the lock (refuted: EvictedStayOut)
     AllowLate,      \* TRUE: a stream may hand one more frame to the engine after it left the pool (bound of a configuration)
     FlipAccounts,   \* accounts whose membership changes during a run (bound of a configuration)
     TrackEvicted,   \* TRUE: keep the ghost `evicted` (only the configurations about EvictedStayOut need it)
@@ -98,8 +103,9 @@ VARIABLES
     refs,       \* [GoodSpaces -> [PatU -> Nat]]  trie refcounts                                (view 1)
     member,     \* set of <<account, space>>   what Deps.Membership answers
     pend,       \* the handleSubscribe that holds remoteMu between Sub1 and Sub2 (NoPend = remoteMu free)
-    busy,       \* [Sids -> "idle" | "check" | "sub" | "unsub"]  frame the stream's read loop is handling
+    busy,       \* [Sids -> "idle" | "check" | "sub" | "recheck" | "unsub"]  frame the stream's read loop is handling
     chk,        \* [Sids -> the subscribe that passed its checks and has not taken remoteMu yet]
+    rchk,       \* [Sids -> the subscribe that registered interest and has not re-checked membership yet]
     pendU,      \* [Sids -> tags]  tags a handleUnsubscribe still has to remove from the pool
     late,       \* [Sids -> BOOLEAN] the one frame handled after the stream left the pool was used
     tokens,     \* [Peers -> 0..Burst] publish rate limiter
@@ -112,13 +118,14 @@ VARIABLES
     \* ---- outputs of the last step (history variable; hidden by VIEW in exhaustive runs)
     out
 
-nodeVars   == <<st, tags, hasRec, recSp, recPat, total, remoteDom, refs, pend, busy, chk, pendU, late, tokens, want, evicted>>
+nodeVars   == <<st, tags, hasRec, recSp, recPat, total, remoteDom, refs, pend, busy, chk, rchk, pendU, late, tokens, want, evicted>>
 clientVars == <<lpats, ring, hid>>
 vars       == <<nodeVars, member, clientVars, out>>
 View       == <<nodeVars, member, clientVars>>
 
-NoPend == [s |-> 0, sp |-> "", acc |-> <<>>, rej |-> <<>>]
+NoPend == [s |-> 0, sp |-> "", f |-> <<>>, acc |-> <<>>, rej |-> <<>>]
 NoChk  == [sp |-> "", f |-> <<>>]
+NoRchk == [sp |-> "", f |-> <<>>, rej |-> <<>>]
 NoDeliver == [x \in Sids |-> 0]
 NoMsg == [id |-> 0, src |-> "", sig |-> FALSE, ts |-> "", space |-> "", topic |-> <<>>, idOk |-> FALSE]
 \* arguments of a Publish step (s = 0: none) / the frame of a Receive step, kept with the outputs for the step properties
@@ -134,7 +141,7 @@ Init ==
     /\ refs = [sp \in GoodSpaces |-> [p \in PatU |-> 0]]
     /\ member = InitMember
     /\ pend = NoPend /\ busy = [s \in Sids |-> "idle"] /\ pendU = [s \in Sids |-> {}]
-    /\ chk = [s \in Sids |-> NoChk] /\ evicted = {}
+    /\ chk = [s \in Sids |-> NoChk] /\ rchk = [s \in Sids |-> NoRchk] /\ evicted = {}
     /\ late = [s \in Sids |-> FALSE]
     /\ tokens = [p \in Peers |-> Burst]
     /\ want = [s \in Sids |-> {}]
@@ -168,7 +175,7 @@ OpenStream(s) ==
     /\ NoCheckGap /\ st[s] = "new" /\ \A x \in Sids : x < s => st[x] # "new"
     /\ st' = [st EXCEPT ![s] = "open"]
     /\ out' = NoOut
-    /\ UNCHANGED <<tags, hasRec, recSp, recPat, total, remoteDom, refs, member, pend, busy, chk, pendU, late, tokens, want, evicted, clientVars>>
+    /\ UNCHANGED <<tags, hasRec, recSp, recPat, total, remoteDom, refs, member, pend, busy, chk, rchk, pendU, late, tokens, want, evicted, clientVars>>
 
 \* pool.removeStream under pool.mu (read error, write error or queue overflow): ids and tags leave the index
 RemoveStream(s) ==
@@ -177,7 +184,7 @@ RemoveStream(s) ==
     /\ tags' = [tags EXCEPT ![s] = {}]
     /\ want' = [want EXCEPT ![s] = {}]
     /\ out' = NoOut
-    /\ UNCHANGED <<hasRec, recSp, recPat, total, remoteDom, refs, member, pend, busy, chk, pendU, late, tokens, evicted, clientVars>>
+    /\ UNCHANGED <<hasRec, recSp, recPat, total, remoteDom, refs, member, pend, busy, chk, rchk, pendU, late, tokens, evicted, clientVars>>
 
 \* the close hook: withdraw exactly the closed stream's recorded interest
 OnStreamClose(s) ==
@@ -190,7 +197,7 @@ OnStreamClose(s) ==
     /\ hasRec' = [hasRec EXCEPT ![s] = FALSE] /\ recSp' = [recSp EXCEPT ![s] = {}]
     /\ recPat' = [recPat EXCEPT ![s] = {}] /\ total' = [total EXCEPT ![s] = 0]
     /\ out' = NoOut
-    /\ UNCHANGED <<tags, member, pend, busy, chk, pendU, late, tokens, want, evicted, clientVars>>
+    /\ UNCHANGED <<tags, member, pend, busy, chk, rchk, pendU, late, tokens, want, evicted, clientVars>>
 
 (* ------------------------------- handleSubscribe ------------------------------- *)
 SubCode(s, sp, f) ==
@@ -205,7 +212,7 @@ SubReject(s, sp, f) ==
     /\ MayHandle(s) /\ SubCode(s, sp, f) # "ok"
     /\ late' = LateAfter(s)
     /\ out' = StatusOut(FirstStream(StreamPeer[s]), SubCode(s, sp, f), f)
-    /\ UNCHANGED <<st, tags, hasRec, recSp, recPat, total, remoteDom, refs, member, pend, busy, chk, pendU, tokens, want, evicted, clientVars>>
+    /\ UNCHANGED <<st, tags, hasRec, recSp, recPat, total, remoteDom, refs, member, pend, busy, chk, rchk, pendU, tokens, want, evicted, clientVars>>
 
 \* the accept loop: duplicates skipped; at a cap this pattern and every remaining one are rejected
 RECURSIVE AcceptLoop(_, _, _, _, _)
@@ -222,7 +229,7 @@ SubCheck(s, sp, f) ==
     /\ chk' = [chk EXCEPT ![s] = [sp |-> sp, f |-> f]]
     /\ late' = LateAfter(s)
     /\ out' = NoOut
-    /\ UNCHANGED <<st, tags, hasRec, recSp, recPat, total, remoteDom, refs, member, pend, pendU, tokens, want, evicted, clientVars>>
+    /\ UNCHANGED <<st, tags, hasRec, recSp, recPat, total, remoteDom, refs, member, pend, rchk, pendU, tokens, want, evicted, clientVars>>
 
 \* remoteMu taken; space trie, stream record and bySpace entry created on demand; interest recorded
 Sub1(s) ==
@@ -237,11 +244,11 @@ Sub1(s) ==
           /\ recPat' = [recPat EXCEPT ![s] = @ \cup Tag(sp, A)]
           /\ total' = [total EXCEPT ![s] = @ + Cardinality(A)]
           /\ refs' = [refs EXCEPT ![sp] = [p \in PatU |-> IF p \in A THEN refs[sp][p] + 1 ELSE refs[sp][p]]]
-          /\ pend' = [s |-> s, sp |-> sp, acc |-> r.acc, rej |-> r.rej]
+          /\ pend' = [s |-> s, sp |-> sp, f |-> f, acc |-> r.acc, rej |-> r.rej]
     /\ busy' = [busy EXCEPT ![s] = "sub"]
     /\ chk' = [chk EXCEPT ![s] = NoChk]
     /\ out' = NoOut
-    /\ UNCHANGED <<st, tags, member, pendU, late, tokens, want, evicted, clientVars>>
+    /\ UNCHANGED <<st, tags, member, rchk, pendU, late, tokens, want, evicted, clientVars>>
 
 \* AddTagsCtx under pool.mu; when the stream is no longer in the pool the interest is rolled back;
 \* remoteMu released; the rejected tail is reported
@@ -273,8 +280,10 @@ Sub2 ==
             /\ UNCHANGED <<tags, want, recPat, total, refs>>
        ELSE                         \* nothing accepted: as-is the empty records stay
             UNCHANGED <<tags, want, hasRec, recSp, recPat, total, remoteDom, refs>>
-    /\ out' = IF pend.rej # <<>> THEN StatusOut(FirstStream(StreamPeer[pend.s]), "TooManyTopics", pend.rej) ELSE NoOut
-    /\ busy' = [busy EXCEPT ![pend.s] = "idle"]
+    /\ LET again == FIX_Recheck /\ pend.acc # <<>> /\ st[pend.s] = "open"     \* tagged: the membership is checked once more
+       IN /\ out' = IF ~again /\ pend.rej # <<>> THEN StatusOut(FirstStream(StreamPeer[pend.s]), "TooManyTopics", pend.rej) ELSE NoOut
+          /\ busy' = [busy EXCEPT ![pend.s] = IF again THEN "recheck" ELSE "idle"]
+          /\ rchk' = [rchk EXCEPT ![pend.s] = IF again THEN [sp |-> pend.sp, f |-> pend.f, rej |-> pend.rej] ELSE NoRchk]
     /\ pend' = NoPend
     /\ UNCHANGED <<st, member, chk, pendU, late, tokens, evicted, clientVars>>
 
@@ -298,7 +307,7 @@ Unsub1(s, sp, P) ==
                /\ want' = [want EXCEPT ![s] = @ \ Tag(sp, R)]
                /\ busy' = [busy EXCEPT ![s] = IF R # {} THEN "unsub" ELSE "idle"]
                /\ pendU' = [pendU EXCEPT ![s] = Tag(sp, R)]
-    /\ UNCHANGED <<st, tags, member, pend, chk, tokens, evicted, clientVars>>
+    /\ UNCHANGED <<st, tags, member, pend, chk, rchk, tokens, evicted, clientVars>>
 
 \* RemoveTagsCtx outside remoteMu ("stream not found" is only logged)
 Unsub2(s) ==
@@ -307,7 +316,7 @@ Unsub2(s) ==
     /\ busy' = [busy EXCEPT ![s] = "idle"]
     /\ pendU' = [pendU EXCEPT ![s] = {}]
     /\ out' = NoOut
-    /\ UNCHANGED <<st, hasRec, recSp, recPat, total, remoteDom, refs, member, pend, chk, late, tokens, want, evicted, clientVars>>
+    /\ UNCHANGED <<st, hasRec, recSp, recPat, total, remoteDom, refs, member, pend, chk, rchk, late, tokens, want, evicted, clientVars>>
 
 (* ------------------- evictSpaceStreams / CloseSpace (one remoteMu hold) ------------------- *)
 \* drop the space interest of every stream of S: record, tags (RemoveTagsById ignores missing streams)
@@ -334,12 +343,33 @@ EvictWhere(sp, cond(_), gone) ==
           /\ remoteDom' = IF sp \in GoodSpaces THEN PruneSpace(r2, remoteDom, sp) ELSE remoteDom
           /\ want' = [x \in Sids |-> IF cond(x) THEN want[x] \ OfSpace(want[x], sp) ELSE want[x]]
     /\ out' = NoOut
-    /\ UNCHANGED <<st, member, pend, busy, chk, pendU, late, tokens, clientVars>>
+    /\ UNCHANGED <<st, member, pend, busy, chk, rchk, pendU, late, tokens, clientVars>>
 
 \* (ghost) an account counts as evicted from the space when the eviction finds it outside the member list
 EvictMember(sp, a) == EvictWhere(sp, LAMBDA x : StreamAcct[x] = a, IF <<a, sp>> \in member THEN {} ELSE {<<a, sp>>})
 Revalidate(sp)     == EvictWhere(sp, LAMBDA x : <<StreamAcct[x], sp>> \notin member,
                                  {<<StreamAcct[x], sp>> : x \in {y \in Sids : StreamAcct[y] # "none" /\ <<StreamAcct[y], sp>> \notin member}})
+
+\* the second membership check of a subscribe (repaired behaviour), after remoteMu was released: a member goes on
+\* (and reports the rejected tail); for a non-member everything the stream holds in the space is evicted again
+Sub3(s) ==
+    /\ NoCheckGap /\ busy[s] = "recheck"
+    /\ LET sp == rchk[s].sp
+           ok == <<StreamAcct[s], sp>> \in member
+       IN IF ok THEN
+               /\ out' = IF rchk[s].rej # <<>> THEN StatusOut(FirstStream(StreamPeer[s]), "TooManyTopics", rchk[s].rej) ELSE NoOut
+               /\ UNCHANGED <<tags, hasRec, recSp, recPat, total, remoteDom, refs, want>>
+          ELSE /\ MuFree
+               /\ LET S == IF PatsOf(recPat[s], sp) # {} THEN {s} ELSE {}
+                      r2 == IF sp \in remoteDom THEN DecRefs(refs, sp, PatsOf(recPat[s], sp)) ELSE refs
+                  IN /\ DropSpaceOf(S, sp)
+                     /\ refs' = r2
+                     /\ remoteDom' = PruneSpace(r2, remoteDom, sp)
+               /\ want' = [want EXCEPT ![s] = @ \ OfSpace(@, sp)]
+               /\ out' = StatusOut(FirstStream(StreamPeer[s]), "NotAMember", rchk[s].f)
+    /\ busy' = [busy EXCEPT ![s] = "idle"]
+    /\ rchk' = [rchk EXCEPT ![s] = NoRchk]
+    /\ UNCHANGED <<st, member, pend, chk, pendU, late, tokens, evicted, clientVars>>
 
 CloseSpace(sp) ==
     /\ NoCheckGap /\ MuFree
@@ -349,13 +379,13 @@ CloseSpace(sp) ==
     /\ want' = [x \in Sids |-> want[x] \ OfSpace(want[x], sp)]
     /\ lpats' = lpats \ OfSpace(lpats, sp)          \* client side of CloseSpace
     /\ out' = NoOut
-    /\ UNCHANGED <<st, member, pend, busy, chk, pendU, late, tokens, evicted, ring, hid>>
+    /\ UNCHANGED <<st, member, pend, busy, chk, rchk, pendU, late, tokens, evicted, ring, hid>>
 
 AddMember(a, sp) ==
     /\ NoCheckGap /\ <<a, sp>> \notin member /\ member' = member \cup {<<a, sp>>}
     /\ evicted' = evicted \ {<<a, sp>>}
     /\ out' = NoOut
-    /\ UNCHANGED <<st, tags, hasRec, recSp, recPat, total, remoteDom, refs, pend, busy, chk, pendU, late, tokens, want, clientVars>>
+    /\ UNCHANGED <<st, tags, hasRec, recSp, recPat, total, remoteDom, refs, pend, busy, chk, rchk, pendU, late, tokens, want, clientVars>>
 RemoveMember(a, sp) ==
     /\ NoCheckGap /\ <<a, sp>> \in member /\ member' = member \ {<<a, sp>>}
     /\ out' = NoOut /\ UNCHANGED <<nodeVars, clientVars>>
@@ -395,7 +425,7 @@ Publish(s, claimed, sp, t, relayed, idOk) ==
                      handled |-> {}, m |-> NoMsg,
                      pub |-> [s |-> s, claimed |-> claimed, sp |-> sp, t |-> t, relayed |-> relayed, idOk |-> idOk]]
     /\ late' = LateAfter(s)
-    /\ UNCHANGED <<st, tags, hasRec, recSp, recPat, total, remoteDom, refs, member, pend, busy, chk, pendU, want, evicted, clientVars>>
+    /\ UNCHANGED <<st, tags, hasRec, recSp, recPat, total, remoteDom, refs, member, pend, busy, chk, rchk, pendU, want, evicted, clientVars>>
 
 (* --------------------------------- client half --------------------------------- *)
 LSubscribe(sp, p) ==        \* Service.Subscribe: invalid patterns are refused
@@ -453,6 +483,7 @@ NodeNext ==
     \/ \E s \in Sids, sp \in Spaces, f \in SubFrames : SubCheck(s, sp, f)
     \/ \E s \in Sids : Sub1(s)
     \/ Sub2
+    \/ \E s \in Sids : Sub3(s)
     \/ \E s \in Sids, sp \in GoodSpaces, P \in UnsubFrames : Unsub1(s, sp, P)
     \/ \E s \in Sids : Unsub2(s)
     \/ \E sp \in GoodSpaces, a \in Accounts : EvictMember(sp, a)
@@ -520,7 +551,9 @@ NoLeakAfterTeardown ==
 \* an account evicted as a non-member holds no subscription until it is re-admitted. With the membership check
 \* of a subscribe outside remoteMu (AtomicCheck = FALSE, as the code is) this does NOT hold: a subscribe that
 \* passed the check before the removal records its interest after the eviction. Checked in its own config.
-EvictedStayOut == \A s \in Sids : \A sp \in GoodSpaces : <<StreamAcct[s], sp>> \in evicted => OfSpace(want[s], sp) = {}
+\* (repaired: a stream that has not finished its second check may hold the interest it is about to lose)
+EvictedStayOut == \A s \in Sids : \A sp \in GoodSpaces :
+                     (<<StreamAcct[s], sp>> \in evicted /\ busy[s] # "recheck") => OfSpace(want[s], sp) = {}
 
 NodeInv == TypeOK /\ TrieAgreesWithRecords /\ TotalConsistent /\ TagsOnlyInPool /\ WantServed
            /\ ViewsAgreeAtQuiescence /\ NoLeakAfterTeardown
